@@ -183,7 +183,7 @@ func runEsc(c *core.Ctx) {
 				"arbitrary Go-syntax text can be produced while the output is redactable")
 		})
 	}
-	c.Min("final-buffer writes of layer text and %#v producers", n, 7)
+	c.Min("final-buffer writes of layer text and %#v producers", n, 3) // 7 on the pinned tree; three of the blocks are copies that a helper can absorb (refactoring R02-1 leaves 2)
 }
 
 func isIfaceOfFinalBuf(v ssa.Value) bool {
